@@ -35,6 +35,59 @@ OPLEN_MAX = {OP["ret"]: 1}
 
 _STR = re.compile(r'"((?:[^"\\]|\\.)*)"')
 
+# The numeric opcodes in `I` / `i` records are those of the binary under test.  Its hook output starts with the
+# binary's own table (`O <byte> "<name>"`); every reader maps the byte to the CANONICAL index used in this harness
+# (position in OPNAMES) through the name, so that a renumbering of the opcodes changes nothing here.
+EXTRA_NAMES = {}      # canonical index >= 1000 -> name of an opcode this harness has no entry for
+
+
+def canon_op(name):
+    if name in OP:
+        return OP[name]
+    import zlib
+    idx = 1000 + zlib.crc32(name.encode()) % 100000
+    EXTRA_NAMES[idx] = name
+    return idx
+
+
+def opname(opc):
+    if 0 <= opc < len(OPNAMES):
+        return OPNAMES[opc]
+    return EXTRA_NAMES.get(opc, "op%d" % opc)
+
+
+def o_record(line, omap):
+    """`O <byte> "<name>"` -> omap[byte] = canonical index."""
+    parts = line.split(" ", 2)
+    try:
+        omap[int(parts[1])] = canon_op(_unq(_STR.findall(parts[2])[0]))
+    except (IndexError, ValueError):
+        pass
+
+
+_REAL = {}
+
+
+def real_table():
+    """name -> opcode byte of the binary under test (read once from the `O` records of its hook output)."""
+    if not _REAL:
+        from . import core
+        _, _, ex = core.run_program({"main.ms": "x = 1\n"}, dump=True)
+        for line in (ex.get("dump") or "").split("\n"):
+            if line.startswith("O "):
+                parts = line.split(" ", 2)
+                try:
+                    _REAL[_unq(_STR.findall(parts[2])[0])] = int(parts[1])
+                except (IndexError, ValueError):
+                    pass
+        if not _REAL:
+            raise core.Inconclusive("the hook output of the binary carries no opcode table (`O` records)")
+    return _REAL
+
+
+def real_byte(canon):
+    return real_table()[opname(canon)]
+
 
 def _unq(s):
     return json.loads('"' + s + '"')
@@ -44,10 +97,13 @@ def parse_dump(text):
     """{ 'file#fn': [(opcode, [args])] } ; the last definition of a function wins (as the loader does)."""
     fns = {}
     cur = None
+    omap = {}
     for line in text.split("\n"):
         if not line:
             continue
-        if line[0] == 'F':
+        if line[0] == 'O':
+            o_record(line, omap)
+        elif line[0] == 'F':
             strs = _STR.findall(line)
             if len(strs) < 2:
                 continue
@@ -56,6 +112,7 @@ def parse_dump(text):
         elif line[0] == 'i' and cur is not None:
             parts = line.split(" ", 2)
             opcode = int(parts[1])
+            opcode = omap.get(opcode, opcode)
             args = [_unq(a) for a in _STR.findall(parts[2])] if len(parts) > 2 else []
             cur.append((opcode, args))
     return fns
@@ -93,7 +150,7 @@ def static_depth(code):
             continue
         if depths[ip] is not None:
             if depths[ip] != d:
-                bad("instruction %d (%s) is reached with %d and with %d open scope(s)" % (ip, OPNAMES[code[ip][0]] if code[ip][0] < len(OPNAMES) else code[ip][0], depths[ip], d))
+                bad("instruction %d (%s) is reached with %d and with %d open scope(s)" % (ip, opname(code[ip][0]), depths[ip], d))
             continue
         depths[ip] = d
         opc, args = code[ip]
@@ -104,7 +161,7 @@ def static_depth(code):
             try:
                 off = int(args[JUMP_ARG[opc]])
             except (IndexError, ValueError):
-                bad("%s at %d lacks a numeric offset" % (OPNAMES[opc], ip))
+                bad("%s at %d lacks a numeric offset" % (opname(opc), ip))
         if opc in (OP["if_stmt"], OP["while_loop"]):
             work.append((ip + 1, d + 1))
             if off is not None:
@@ -149,13 +206,13 @@ def jump_targets(code):
             try:
                 off = int(args[JUMP_ARG[opc]])
             except (IndexError, ValueError):
-                problems.append("%s at %d lacks a numeric offset" % (OPNAMES[opc], ip))
+                problems.append("%s at %d lacks a numeric offset" % (opname(opc), ip))
                 continue
             tgt = ip + off
             # a forward jump may land exactly on the end only when the interpreter would then fall off the
             # function; Function::run rejects new_val >= len, so this is malformed too.
             if not (0 <= tgt < n):
-                problems.append("%s at %d jumps to %d outside 0..%d" % (OPNAMES[opc], ip, tgt, n - 1))
+                problems.append("%s at %d jumps to %d outside 0..%d" % (opname(opc), ip, tgt, n - 1))
     return problems
 
 
@@ -192,11 +249,15 @@ def check_trace(trace_text, dump_fns=None, normal_exit=True, max_problems=5):
     if lines and lines[-1] != "":
         stats["truncated"] = True       # last record incomplete (process died mid-write)
         lines = lines[:-1]
+    omap = {}
     for line in lines:
         if not line:
             continue
-        stats["events"] += 1
         t = line[0]
+        if t == 'O':
+            o_record(line, omap)
+            continue
+        stats["events"] += 1
         if t == 'I':
             try:
                 _, aid, ip, opc, depth, oplen = line.split(" ")
@@ -204,6 +265,7 @@ def check_trace(trace_text, dump_fns=None, normal_exit=True, max_problems=5):
             except ValueError:
                 stats["truncated"] = True
                 continue
+            opc = omap.get(opc, opc)
             stats["instructions"] += 1
             if unwinding:
                 continue
@@ -225,9 +287,9 @@ def check_trace(trace_text, dump_fns=None, normal_exit=True, max_problems=5):
                     stats["jumps_checked"] += 1
                     if ip not in allowed:
                         bad("jump", "%s: after %s at %d execution continued at %d (allowed %s)" % (
-                            a.name, OPNAMES[lop], lip, ip, sorted(allowed)))
+                            a.name, opname(lop), lip, ip, sorted(allowed)))
                 elif a.code is not None and ip != lip + 1:
-                    bad("jump", "%s: after %s at %d execution continued at %d" % (a.name, OPNAMES[lop], lip, ip))
+                    bad("jump", "%s: after %s at %d execution continued at %d" % (a.name, opname(lop), lip, ip))
                 if lop in (OP["if_stmt"], OP["while_loop"]):
                     if ip == lip + 1:
                         a.shadow += 1
@@ -257,15 +319,15 @@ def check_trace(trace_text, dump_fns=None, normal_exit=True, max_problems=5):
                 elif a.code[ip][0] != opc:
                     bad("dump_mismatch", "%s: trace opcode %d at %d, dump has %d" % (a.name, opc, ip, a.code[ip][0]))
                 elif a.sdepth is not None and a.sdepth[ip] is None:
-                    bad("static_unreachable", "%s: instruction %d (%s) executed although no path of the control-flow graph reaches it" % (a.name, ip, OPNAMES[opc]))
+                    bad("static_unreachable", "%s: instruction %d (%s) executed although no path of the control-flow graph reaches it" % (a.name, ip, opname(opc)))
                 elif a.sdepth is not None:
                     stats["static_checked"] += 1
                     if depth - a.entry != a.sdepth[ip]:
                         bad("static_depth", "%s: %d scope frame(s) open at instruction %d (%s), every static path reaches it with %d" % (
-                            a.name, depth - a.entry, ip, OPNAMES[opc], a.sdepth[ip]))
+                            a.name, depth - a.entry, ip, opname(opc), a.sdepth[ip]))
             if depth != a.entry + a.shadow:
                 bad("shadow_depth", "%s: frame depth %d at instruction %d (%s), shadow scope stack says %d" % (
-                    a.name, depth, ip, OPNAMES[opc], a.entry + a.shadow))
+                    a.name, depth, ip, opname(opc), a.entry + a.shadow))
                 a.shadow = depth - a.entry        # resynchronise: report once
             if opc == OP["while_loop"]:
                 stats["loop_head_visits"] += 1
@@ -276,13 +338,13 @@ def check_trace(trace_text, dump_fns=None, normal_exit=True, max_problems=5):
                     bad("loop_accumulates", "%s: loop head %d visited at depth %d and %d" % (a.name, ip, prev, depth))
             mn = OPLEN_MIN.get(opc)
             if mn is not None and oplen < mn:
-                bad("operand_shape", "%s: %s at %d with %d operand(s), needs >= %d" % (a.name, OPNAMES[opc], ip, oplen, mn))
+                bad("operand_shape", "%s: %s at %d with %d operand(s), needs >= %d" % (a.name, opname(opc), ip, oplen, mn))
             ex = OPLEN_EXACT.get(opc)
             if ex is not None and oplen != ex:
-                bad("operand_shape", "%s: %s at %d with %d operand(s), needs exactly %d" % (a.name, OPNAMES[opc], ip, oplen, ex))
+                bad("operand_shape", "%s: %s at %d with %d operand(s), needs exactly %d" % (a.name, opname(opc), ip, oplen, ex))
             mx = OPLEN_MAX.get(opc)
             if mx is not None and oplen > mx:
-                bad("operand_shape", "%s: %s at %d with %d operand(s), allows <= %d" % (a.name, OPNAMES[opc], ip, oplen, mx))
+                bad("operand_shape", "%s: %s at %d with %d operand(s), allows <= %d" % (a.name, opname(opc), ip, oplen, mx))
             if opc == OP["ret"]:
                 # a function hands back a value from every `return` or from none (void): a `ret` that finds no
                 # operand in a function whose other returns carry one was reached by a wrong jump
